@@ -328,7 +328,7 @@ func runPrintPure(p *Program, r *RuleResult) {
 						}
 					}
 				}
-				if bad == "" && !p.readOnlyFn(fn) {
+				if bad == "" && !p.writesNothingOutside(fn) {
 					bad = "it is not read-only (" + p.roWhy[fn] + ")"
 				}
 				construct := "printer:" + mname
